@@ -461,8 +461,7 @@ int listen(int fd, int backlog)
 }
 
 /* ------------------------------------------------------------------ common_ctl (common/common_ctl.c), TRUSTED(common_ctl)
- * both leave a NUL-terminated string in buf[0..capacity) (the real ctl_derive_path aborts when the text does not fit;
- * that is an obligation of common_ctl.c, not of this unit) */
+ * both leave a NUL-terminated string in buf[0..capacity) (ctl_derive_path: see below) */
 void ctl_get_dir(char *buf, size_t capacity)
 {
     size_t n = nondet_size_t();
@@ -470,12 +469,15 @@ void ctl_get_dir(char *buf, size_t capacity)
     __CPROVER_havoc_slice(buf, capacity);      /* whole buffer arbitrary (includes: bytes behind the terminator unchanged) */
     buf[n] = '\0';
 }
-void ctl_derive_path(const char *ctl_dir, pid_t creator_pid, int64_t sock_ref, char *buf, size_t capacity)
+/* (since fix 6b9fc0c: 0 with a complete path, or -1/ENAMETOOLONG when the text does not fit - contract enforced in unit utilctl) */
+int ctl_derive_path(const char *ctl_dir, pid_t creator_pid, int64_t sock_ref, char *buf, size_t capacity)
 {
     size_t n = nondet_size_t();
     __CPROVER_assume(capacity >= 1 && n < capacity);
     __CPROVER_havoc_slice(buf, capacity);
     buf[n] = '\0';
+    if (nondet_bool()) { xv_errno = ENAMETOOLONG; return -1; }
+    return 0;
 }
 
 
